@@ -63,8 +63,8 @@ def sh(cmd, cwd=None, env=None, timeout=1800):
 
 def work(args):
     slot, prop, tests, relpath, lineno, old, new, text = args
-    wt = f"/tmp/sweep_{prop}_{slot}"
-    scratch = f"/tmp/simcheck-scratch-sweep-{prop}-{slot}"
+    wt = f"/tmp/sweep_{prop.replace(',', '')}_{slot}"
+    scratch = f"/tmp/simcheck-scratch-sweep-{prop.replace(',', '')}-{slot}"
     if not os.path.isdir(wt):
         sh(f"git -C /repo worktree add -q --detach {wt} HEAD")
     sh("git checkout -q -- .", cwd=wt)
@@ -75,13 +75,15 @@ def work(args):
     if " passed" not in out or "failed" in out or "error" in out.lower():
         return (relpath, lineno, old, new, "killed-by-unit-tests", "")
     cenv = dict(os.environ, VERIF_REPO=wt, VERIF_SCRATCH=scratch)
-    rc, out = sh(f"./simcheck {prop} --tier quick --no-evidence", cwd=VERIF, env=cenv, timeout=1500)
-    first = next((l.strip() for l in out.splitlines() if l.strip().startswith("class=") or "regression of" in l), "")
-    if rc == 1:
-        return (relpath, lineno, old, new, "detected", first[:110])
-    if rc == 0:
-        return (relpath, lineno, old, new, "SURVIVED", "")
-    return (relpath, lineno, old, new, f"harness-rc{rc}", out[-200:].replace("\n", " "))
+    worst = "SURVIVED"
+    for one in prop.split(","):  # several properties anchored in the same file: detected if any of their checks reports it
+        rc, out = sh(f"./simcheck {one} --tier quick --no-evidence", cwd=VERIF, env=cenv, timeout=1500)
+        first = next((l.strip() for l in out.splitlines() if l.strip().startswith("class=") or "regression of" in l), "")
+        if rc == 1:
+            return (relpath, lineno, old, new, "detected", f"[{one}] " + first[:110])
+        if rc != 0:
+            worst = f"harness-rc{rc}"
+    return (relpath, lineno, old, new, worst, "")
 
 
 def main():
@@ -118,8 +120,8 @@ def main():
         for res in ex.map(run_queue, queues):
             results.extend(res)
     for s in range(par):
-        sh(f"git -C /repo worktree remove --force /tmp/sweep_{prop}_{s}")
-        shutil.rmtree(f"/tmp/simcheck-scratch-sweep-{prop}-{s}", ignore_errors=True)
+        sh(f"git -C /repo worktree remove --force /tmp/sweep_{prop.replace(',', '')}_{s}")
+        shutil.rmtree(f"/tmp/simcheck-scratch-sweep-{prop.replace(',', '')}-{s}", ignore_errors=True)
     counts = {}
     for r in results:
         counts[r[4].split("-")[0]] = counts.get(r[4].split("-")[0], 0) + 1
@@ -127,7 +129,7 @@ def main():
     for r in results:
         if r[4] == "SURVIVED":
             print(f"SURVIVOR {r[0]}:{r[1]} `{r[2]}` -> `{r[3]}`")
-    json.dump(results, open(f"/tmp/sweep_{prop}_{seed}.json", "w"))
+    json.dump(results, open(f"/tmp/sweep_{prop.replace(',', '')}_{seed}.json", "w"))
 
 
 if __name__ == "__main__":
